@@ -4,7 +4,8 @@ open Cppcheck.Wire Cppcheck.VarMap Cppcheck.AliasScope
 
 /-
 Line protocol (one op per line):
-  ex <item>*     -> "<hex program text> <hex text of expandImpl program> <1|0: expandImpl = expandSpec>"
+  ex <item>*     -> "<hex program text> <hex text of expandImpl program> <1|0: expandImpl = expandSpec> <hex probe text>"
+                    (probe text: declarations + static_assert of every declared name's expanded type, for a C++ compiler)
   item: `{`  `}`  F<f>:-  F<f>:<x>:<ty>  T<x>:<ty> (typedef)  U<x>:<ty> (using)  V<x>:<ty>:<ex|->  A<x>:<ex>
   ty:   b<k>. | p<ty> | n<x>.          ex:  #<n>. | v<x>. | +<ex><ex>
 -/
@@ -62,7 +63,7 @@ def step (line : String) : String :=
     | some p =>
       let a := expandImpl p
       let b := expandSpec p
-      s!"{toHex (printProg p)} {toHex (printProg a)} {boolStr (a == b)}"
+      s!"{toHex (printProg p)} {toHex (printProg a)} {boolStr (a == b)} {toHex (probeText p)}"
     | none => "bad-op"
   | _ => "bad-op"
 
